@@ -128,6 +128,25 @@ var Patterns = []Pat{
 			}
 			return replaceAt(letters(t, n, wide, "pw"), rapid.IntRange(0, n-1).Draw(t, "pi"), '\n'), true
 		}},
+	// the "anything" patterns schema editors write on every string: `.` excludes line
+	// terminators and `$` is the end of the input in ECMA-262 and RE2 alike, so these are
+	// NOT catch-alls
+	{Re: `^.*$`, Min: 0, Max: -1,
+		Build: func(t *rapid.T, n int) string { return letters(t, n, wide, "pw") },
+		Bad: func(t *rapid.T, n int) (string, bool) {
+			if n < 1 {
+				return "", false
+			}
+			return replaceAt(letters(t, n, wide, "pw"), rapid.IntRange(0, n-1).Draw(t, "pi"), '\n'), true
+		}},
+	{Re: `^(.*)$`, Min: 0, Max: -1,
+		Build: func(t *rapid.T, n int) string { return letters(t, n, wide, "pw") },
+		Bad: func(t *rapid.T, n int) (string, bool) {
+			if n < 1 {
+				return "", false
+			}
+			return replaceAt(letters(t, n, wide, "pw"), rapid.IntRange(0, n-1).Draw(t, "pi"), '\n'), true
+		}},
 	{Re: `^[^@]+@[^@]+$`, Min: 3, Max: -1,
 		Build: func(t *rapid.T, n int) string {
 			k := rapid.IntRange(1, n-2).Draw(t, "pk")
